@@ -206,9 +206,47 @@ class World(object):
             self._add('hier_reduced', hl2,
                       [_ro(np.delete(p, h.n_bottom + j)) for p in hpts],
                       s1=True)
+        # seeded initial points (seed 0 is a seed)
+        hpost = chi.HierarchicalLogPosterior(hl, pints.ComposedLogPrior(*[
+            pints.LogNormalLogPrior(-1.0, 0.3) for _ in range(h.n_top)]))
+        self.entries.append(
+            ('hier_post', 'initial_points',
+             lambda a, q=hpost: q.sample_initial_parameters(
+                 n_samples=2, seed=int(a[0])),
+             [_ro([0]), _ro([int(rng.integers(1, 1000))])]))
+        # ---- stand-alone population models (bare, composed, reduced with
+        # a fixed entry), each called with several parameter vectors
+        for j in range(2):
+            n2 = int(rng.integers(1, 4))
+            lv = GP.random_composition(rng, n2, max_parts=2, max_dim=2,
+                                       kinds='GLTP', p_cov=0.0)
+            pmod = GP.build_chi(lv, n2)
+            tp = np.concatenate([GP.leaf_top(rng, l, n2) for l in lv])
+            nm = pmod.get_parameter_names()
+            if rng.random() < 0.6 and len(set(nm)) == len(nm) and len(nm) > 1:
+                pmod = chi.ReducedPopulationModel(pmod)
+                jf = int(rng.integers(len(nm)))
+                pmod.fix_parameters({nm[jf]: float(tp[jf])})
+                tp = np.delete(tp, jf)
+            tps = [_ro(tp), _ro(tp * 1.07), _ro(tp * 0.9)]
+            eta = _ro(rng.uniform(0.2, 0.9, size=(n2, pmod.n_dim())))
+            sd = [0, int(rng.integers(1, 1000))][int(rng.integers(2))]
+            nme = 'popmodel%d' % j
+            self.entries.append(
+                (nme, 'psi', lambda a, m=pmod, e=eta:
+                 m.compute_individual_parameters(a, e), tps))
+            self.entries.append(
+                (nme, 'sample', lambda a, m=pmod, sd=sd:
+                 m.sample(a, n_samples=3, seed=sd), tps))
+            self.entries.append(
+                (nme, 'll', lambda a, m=pmod, e=eta:
+                 m.compute_log_likelihood(a, e), tps))
+            self.entries.append(
+                (nme, 'S1', lambda a, m=pmod, e=eta:
+                 m.compute_sensitivities(a, e, reduce=True), tps))
         # ---- population model on its own (shared with hl!)
         top = _ro(xv[h.n_bottom:])
-        seed = int(rng.integers(1, 1000))
+        seed = [0, int(rng.integers(1, 1000))][int(rng.integers(2))]
         self.entries.append(('pop', 'sample',
                              lambda a, pop=pop: pop.sample(a, n_samples=3,
                                                            seed=seed),
@@ -394,7 +432,15 @@ def run_history(ctx, rng, world, n_calls, feats, schedule=None):
                      'now': _freeze(raw), 'rewritten_by': kinds[-1],
                      'step': step}, feats)
                 return
-        if isinstance(res, (tuple, np.ndarray)):
+        parts = res if isinstance(res, tuple) else (res,)
+        aliases_input = any(
+            isinstance(r, np.ndarray) and np.shares_memory(r, arg)
+            for r in parts)
+        if aliases_input:
+            # a result that is a view of the caller's own array changes when
+            # the caller overwrites that array: not held
+            ctx.count('results_that_are_views_of_the_argument')
+        elif isinstance(res, (tuple, np.ndarray)):
             held.append((res, snap, step, '%s.%s' % (
                 name.rstrip('0123456789'), call)))
             if len(held) > 6:
